@@ -82,7 +82,8 @@ def main(tier="quick"):
             r = subprocess.run([os.path.join(core.VERIF, "tools", "mutant_run.sh"), p, cid], capture_output=True, text=True)
             hit = f"== {cid} exit=1" in r.stdout
             ok += hit
-            print(("caught  " if hit else "MISSED  ") + os.path.relpath(p, core.VERIF) + " by " + cid)
+            stale = "PATCH-DOES-NOT-APPLY" in r.stdout
+            print(("caught  " if hit else ("STALE (patch does not apply to /repo HEAD) " if stale else "MISSED  ")) + os.path.relpath(p, core.VERIF) + " by " + cid, flush=True)
             if not hit:
                 bad.append(f"{p} not caught by {cid}")
     print(f"mutants caught: {ok}/{n}")
